@@ -16,6 +16,8 @@ import replaygen
 
 VERIF = vp.VERIF
 
+ONLY_CHECKS = None
+
 TRUSTED_BASE = [
     "cbmc 6.11.0: C++/C front ends, goto-instrument --dfcc contract instrumentation, SAT back end",
     "/verif/stubs/stl: executed container/string stubs standing in for libstdc++ (not proved equivalent)",
@@ -62,6 +64,8 @@ def load_known():
 def checks_for(unit, prop, tier):
     out = []
     for c in unit.spec.get('checks', []):
+        if ONLY_CHECKS and c['name'] not in ONLY_CHECKS:
+            continue
         if 'properties' in c and prop and prop not in c['properties']:
             continue
         if 'properties' not in c and prop and prop not in unit.spec.get('properties', []):
@@ -122,6 +126,7 @@ def main(argv):
     ap.add_argument('--tier', default=os.environ.get('VERIF_TIER', 'quick'))
     ap.add_argument('--unit', action='append')
     ap.add_argument('--keep', action='store_true')
+    ap.add_argument('--check', action='append', help='only these checks of the selected units (development aid; never writes evidence)')
     ap.add_argument('--replay')
     ap.add_argument('--no-evidence', action='store_true')
     ap.add_argument('-j', type=int, default=int(os.environ.get('VP_JOBS', '6')))
@@ -131,6 +136,8 @@ def main(argv):
     if a.tier not in ('quick', 'thorough'):
         a.tier = 'quick'
     prop = a.property
+    global ONLY_CHECKS
+    ONLY_CHECKS = a.check
     os.environ['VP_TIER'] = a.tier
     seed = int(os.environ.get('VERIF_SEED', '0') or 0)
     t0 = time.time()
@@ -207,7 +214,7 @@ def main(argv):
             'wall_s': wall,
             'violations': len(viol_lines),
         }
-        if not a.no_evidence and not a.unit:
+        if not a.no_evidence and not a.unit and not a.check:
             os.makedirs(os.path.join(VERIF, 'evidence'), exist_ok=True)
             json.dump(ev, open(os.path.join(VERIF, 'evidence', prop + '.json'), 'w'), indent=1)
         # ---- report
